@@ -30,7 +30,7 @@ ASSUMPTIONS = ['sentinels are alphanumeric so that raw, HTML-, JSON- and repr-es
 
 NAMES = ['secret', 'secret_key', 'db_secret_url', 'my_secretX', 'token', 's', 'payment_gateway_webhook_signing_secret',
          'page_title']      # page_title: also the name of one of the meta application's own resources
-KINDS = ['str', 'bytes', 'int', 'nested', 'reprobj', 'longstr']
+KINDS = ['str', 'bytes', 'int', 'nested', 'reprobj', 'longstr', 'surrstr']
 MOUNTS = ['/_meta/', '/m', '/', 'deep']
 MWSETS = ['none', 'cookie', 'custom', 'subclass', 'provides-shapes']
 VIEWS = ['html', 'json']
@@ -89,6 +89,8 @@ def make_value(name, kind):
         return ReprObj(s)
     if kind == 'longstr':
         return s + 'x' * 200
+    if kind == 'surrstr':
+        return s + u' caf\udce9.txt'        # text with a lone surrogate (a file name decoded with surrogateescape)
     raise ValueError(kind)
 
 
@@ -171,6 +173,14 @@ def build_host(resources, mwset, mount, meta=None):
             def request(self, next):
                 return next()
         mws = [Custom(), SignedCookieMiddleware(secret_key=COOKIE_KEY, arg_name='sess')]
+    elif mwset == 'badrepr':
+        class BadReprMW(Middleware):
+            def __repr__(self):
+                raise RuntimeError('middleware repr failed on purpose')
+
+            def request(self, next):
+                return next()
+        mws = [BadReprMW(), SignedCookieMiddleware(secret_key=COOKIE_KEY)]
     elif mwset == 'subclass':
         # the host's own flavour of the cookie middleware, nothing overridden
         class HostCookie(SignedCookieMiddleware):
@@ -215,7 +225,8 @@ def fetch(app, base, view):
     return wsgi.call(app, path, 'GET')
 
 
-def check_page(acc, res, spec, view, case, label, expect_failure=None):
+def check_page(acc, res, spec, view, case, label, expect_failure=None, require_resources=False):
+    listing = expect_failure is None or require_resources
     def bad(k, msg):
         acc.violation('C18:%s:%s:%s' % (k, view, label), '%s; resources %r, %r -> %s %r'
                       % (msg, spec, case, res.status, (res.body or b'')[:200]), case)
@@ -242,11 +253,11 @@ def check_page(acc, res, spec, view, case, label, expect_failure=None):
                 bad('secret-disclosed:%s' % ('longname' if len(name) > 32 else 'shortname'),
                     'value of resource %r (%s) appears in the page' % (name, kind))
                 return False
-            if expect_failure is None and ('[REDACTED]' not in body or name[:20] not in body):
+            if listing and ('[REDACTED]' not in body or name[:20] not in body):
                 bad('redaction-marker-missing', 'resource %r is not listed with the redaction marker' % name)
                 return False
         else:
-            if expect_failure is None and kind != 'longstr' and nd not in body:
+            if listing and kind != 'longstr' and nd not in body:
                 bad('resource-hidden', 'value of non-secret resource %r (%s) is not visible' % (name, kind))
                 return False
     if expect_failure is not None:
@@ -321,6 +332,24 @@ def run_faults(acc, tier, i, n):
                 case = {'layer': 'faults', 'fault': 'resource-repr', 'exc': exc_full, 'mount': mount, 'view': view}
                 ok = check_page(acc, res, spec, view, case, 'resource-repr-raises', expect_failure=exc_name if exc_name != 'CustomError' else 'CustomError')
                 acc.outcome('fault|resource-repr|%s|%s' % (view, 'ok' if ok else 'bad'))
+        # (a2) a host middleware whose repr raises: the resources are still listed (with their redaction)
+        if exc_full == EXC_TYPES[0]:
+            for mount in MOUNTS:
+                k += 1
+                if k % n != i:
+                    continue
+                app, base = build_host(resources, 'badrepr', mount)
+                for view in VIEWS:
+                    res = fetch(app, base, view)
+                    acc.evaluated += 1
+                    acc.transitions += 1
+                    acc.validated += 1
+                    acc.add('nontrivial')
+                    case = {'layer': 'faults', 'fault': 'middleware-repr', 'exc': 'RuntimeError', 'mount': mount, 'view': view}
+                    # (mounted three levels deep the serving application has no middleware of its own: nothing fails)
+                    ok = check_page(acc, res, spec, view, case, 'middleware-repr-raises',
+                                    expect_failure=None if mount == 'deep' else 'RuntimeError', require_resources=True)
+                    acc.outcome('fault|middleware-repr|%s|%s' % (view, 'ok' if ok else 'bad'))
         # (b) each peripheral's get_context / render raising
         for pi in range(nper):
             for phase in ('get_context', 'render_main_page_html'):
